@@ -453,7 +453,7 @@ def main():
          '  [' + ';\n   '.join('(%s, %s, %s, %s, %s, %s)' % (coqstr(n), b(a), b(c), b(d), b(e), b(f)) for n, a, c, d, e, f in sk) + '].', '']
     write_if_changed(os.path.join(gen, 'Threads.v'), '\n'.join(L) + '\n')
     fsrc = open(os.path.join(src, 'File.cpp')).read()
-    funcs = ['File::File', 'File::~File', 'File::read', 'File::write', 'File::close', 'File::setDefaultLogContainerSize',
+    funcs = ['File::File', 'File::~File', 'File::open', 'File::read', 'File::write', 'File::close', 'File::setDefaultLogContainerSize',
              'File::uncompressedFile2ReadWriteQueue', 'File::readWriteQueue2UncompressedFile',
              'File::compressedFile2UncompressedFile', 'File::uncompressedFile2CompressedFile',
              'File::uncompressedFileReadThread', 'File::uncompressedFileWriteThread', 'File::compressedFileReadThread', 'File::compressedFileWriteThread']
